@@ -366,5 +366,40 @@ func bitmaps(r *vlib.Run) {
 			}
 		}
 		checkBitmap(c, "model2d.Bitmap.Mesh", bm, map[string]interface{}{"w": w, "h": h, "data": fmt.Sprint(bm.Data)})
+		// bitmaps produced by the library's own editing operations (non-square ones tell the axes
+		// apart): each is first compared pixel by pixel with what the operation is documented to do,
+		// then outlined
+		desc := map[string]interface{}{"w": w, "h": h, "data": fmt.Sprint(bm.Data)}
+		fx, fy, inv := bm.FlipX(), bm.FlipY(), bm.Invert()
+		for y := 0; y < h; y++ {
+			for x := 0; x < w; x++ {
+				if fx.Width != w || fx.Height != h || fx.Get(x, y) != bm.Get(w-1-x, y) {
+					c.Violation("model2d.Bitmap.FlipX/pixels", fmt.Sprintf("pixel (%d,%d) of FlipX", x, y), desc)
+					return
+				}
+				if fy.Width != w || fy.Height != h || fy.Get(x, y) != bm.Get(x, h-1-y) {
+					c.Violation("model2d.Bitmap.FlipY/pixels", fmt.Sprintf("pixel (%d,%d) of FlipY", x, y), desc)
+					return
+				}
+				if inv.Get(x, y) == bm.Get(x, y) {
+					c.Violation("model2d.Bitmap.Invert/pixels", fmt.Sprintf("pixel (%d,%d) of Invert", x, y), desc)
+					return
+				}
+			}
+		}
+		set := model2d.NewBitmap(w, h)
+		for _, i := range c.Rng.Perm(w * h) {
+			set.Set(i%w, i/w, bm.Get(i%w, i/w))
+		}
+		for i := range bm.Data {
+			if set.Data[i] != bm.Data[i] {
+				c.Violation("model2d.Bitmap.Set/pixels", fmt.Sprintf("pixel (%d,%d) after Set", i%w, i/w), desc)
+				return
+			}
+		}
+		c.Count("bitmap.edit_operations_checked", 4)
+		checkBitmap(c, "model2d.Bitmap.FlipX.Mesh", fx, desc)
+		checkBitmap(c, "model2d.Bitmap.FlipY.Mesh", fy, desc)
+		checkBitmap(c, "model2d.Bitmap.Set.Mesh", set, desc)
 	})
 }
